@@ -240,6 +240,20 @@ func check(c Case) (string, outcome) {
 			}
 		}
 	}
+	if err != nil {
+		// a second attempt on the very same slices (as a caller retrying would do)
+		var err2 error
+		if p, msg := run.Safe(func() { err2 = coder.ReconstructData(work, par) }); p {
+			return "second ReconstructData call after an error panicked: " + msg, oc
+		}
+		if err2 == nil {
+			for j := range work {
+				if work[j] == nil || !bytes.Equal(work[j], orig[j]) {
+					return fmt.Sprintf("ReconstructData failed (%v), and a second call on the same slices returned nil although data shard %d is not the original", err, j), oc
+				}
+			}
+		}
+	}
 	switch oc.expect {
 	case "ok", "nothing":
 		if err != nil {
@@ -458,6 +472,20 @@ func TestCheck(t *testing.T) {
 				break
 			}
 			rec.NonTrivial(Case{Coder: sc.coder, D: sc.d, P: sc.p, MissD: pat, Seed: uint64(1000 + pi)})
+		}
+	}
+
+	// (3e) large codes: parity matrices with 2^20 and more elements
+	for li, dp := range [][2]int{{2048, 512}, {1024, 1024}, {4096, 300}} {
+		if !cfg.Mine(4000+li) || (li > 0 && !cfg.Thorough()) {
+			continue
+		}
+		for _, coder := range []string{"cauchy", "vand"} {
+			if coder == "vand" && li != 0 {
+				continue
+			}
+			rec.Class("matrix>=2^20-elements")
+			do(Case{Coder: coder, D: dp[0], P: dp[1], Len: 4, G: 4, MissD: []int{0, dp[0] / 2, dp[0] - 1}, MissP: []int{1}, Seed: uint64(90 + li)})
 		}
 	}
 
